@@ -188,8 +188,9 @@ func (s *verifLDAPServer) handleBind(w ldapsrv.ResponseWriter, m *ldapsrv.Messag
 		var user string
 		if n, _ := fmt.Sscanf(name, "uid=%s", &user); n == 1 {
 			user = strings.TrimSuffix(user, ","+verifLDAPPeopleDN)
-			want, exists := d.Passwords[user]
-			ok = exists && pw != "" && pw == want && name == fmt.Sprintf(verifLDAPBindPattern, user)
+			// directory attribute matching is case-insensitive, as in real LDAP servers
+			want, exists := d.Passwords[strings.ToLower(user)]
+			ok = exists && pw != "" && pw == want && strings.EqualFold(name, fmt.Sprintf(verifLDAPBindPattern, user))
 		}
 		d.Binds++
 	}
